@@ -11,6 +11,15 @@ claimed = {
  "C05": dict(design="5/C05",
    text="Bounded symbolic model checking of (*Server).handleConnection on a scripted net.Conn: every client byte stream within the bound, delivered in up to 2 reads and ended by EOF or a read error, with an arbitrary callback verdict and message/error lengths at the part-size boundaries; asserts at-most-one callback with exactly the decoded fields, exactly one length-prefixed reply, one close, positive reply only if decoded and approved, and decodability of every reply by Response.Decode and by the PAM reader rule.",
    note="Trusted: as C13. net.Conn is a harness recorder (writes never fail). The accept loop's goroutine-per-connection is covered by the two-connection non-interference unit, not by parallel execution."),
+ "C01": dict(design="5/C01",
+   text="Bounded symbolic model checking of the store library over an in-engine file system with the hash primitives as collision-free uninterpreted functions: every history of 2 (quick) / 3 (thorough) add/update/set-admin/remove operations on two users with arbitrary password bytes, followed by every observation (Authenticate with the written, the other, and near-miss passwords; Exists; List), compared with a sequential specification; plus long (>= 1 KiB) passwords. Password equality is taken modulo the PBKDF2 key rule for scrypt sets, exactly as the property states.",
+   note="Trusted: gosym semantics; vfs model of POSIX; UF idealisation of argon2id/scrypt/HMAC/SHA-256 (collision-free) and of crypto/rand (no repeats); symbolic clock. Histories longer than the bound and user names other than two fixed valid ones are outside (names: C03)."),
+ "C02": dict(design="5/C02",
+   text="Bounded symbolic model checking of Authenticate/List/ListFull/AddUser/UpdateUser/RemoveUser on directories whose files the harness writes itself: records composed per SCHEMA.md by an independent implementation (x/crypto as reference) with every digest mutation class, 14 structured field mutations, arbitrary raw contents and valid-prefix + arbitrary tails within the byte bounds, lines longer than 4096/8192 bytes, and the schema's table for unsupported hashes; no success, no panic, files byte-identical after refused updates.",
+   note="Trusted: as C01. Raw contents are bounded to 4..8 bytes and prefix tails to 4..7 bytes (quick) because each arbitrary byte forks the parser; larger lines are covered only in the padded-record family."),
+ "C03": dict(design="5/C03",
+   text="Bounded symbolic model checking of every store entry point with an arbitrary byte string as user name (optionally behind a prefix that reaches a sibling store), on a tree containing the store under test and a sibling store: invalid names fail or are no-ops and never authenticate; every open/create/rename/unlink/mkdir event of the modelled file system stays within <base>, <base>/.tmp and <base>/<valid>.user|.admin; the sibling store is byte-identical afterwards; invalid-named files never satisfy Check and are never listed.",
+   note="Trusted: as C01, plus the engine-side confinement oracle over the vfs event trace (not natively observable; natively the sibling-snapshot oracle is used). Names longer than prefix + 3 (quick) / 5 (thorough) arbitrary bytes, symlinks and NAME_MAX are outside; frontends are covered by C04's wiring units."),
 }
 NA_DEFAULT = "check not built yet (framework under construction); see DESIGN.md section 5 for the plan"
 na_reason = {}
